@@ -98,3 +98,169 @@ package exif2
 //@   requires irOK(ir)
 //@   modifies ir.buffer.len, ir.buffer.tag
 //@   ensures ir.buffer.len <= 84 && ir.buffer.len >= old(ir.buffer.len) && ir.buffer.len <= old(ir.buffer.len) + 1
+
+// Value decoders: each reads at most the value of the current pending tag; none changes the pending-tag buffer.
+
+//@ func (*ifdReader).ParseCameraMake
+//@   props C01 C02
+//@   requires tagPre(ir, t)
+//@   modifies ir.po, stream(ir.reader), ir.buffer.buf
+
+//@ func (*ifdReader).ParseDate
+//@   props C01 C02
+//@   requires tagPre(ir, t)
+//@   modifies ir.po, stream(ir.reader), ir.buffer.buf
+
+//@ func (*ifdReader).ParseGPSAltitude
+//@   props C01 C02
+//@   requires tagPre(ir, t)
+//@   modifies ir.po, stream(ir.reader), ir.buffer.buf
+
+//@ func (*ifdReader).ParseGPSCoord
+//@   props C01 C02
+//@   requires tagPre(ir, t)
+//@   modifies ir.po, stream(ir.reader), ir.buffer.buf
+
+//@ func (*ifdReader).ParseOffsetTime
+//@   props C01 C02
+//@   requires tagPre(ir, t)
+//@   modifies ir.po, stream(ir.reader), ir.buffer.buf
+
+//@ func (*ifdReader).ParseRationalU
+//@   props C01 C02
+//@   requires tagPre(ir, t)
+//@   modifies ir.po, stream(ir.reader), ir.buffer.buf
+
+//@ func (*ifdReader).ParseString
+//@   props C01 C02
+//@   requires tagPre(ir, t)
+//@   modifies ir.po, stream(ir.reader), ir.buffer.buf
+
+//@ func (*ifdReader).ParseBuffer
+//@   props C01 C02
+//@   requires tagPre(ir, t)
+//@   modifies ir.po, stream(ir.reader), ir.buffer.buf
+
+//@ func (*ifdReader).ParseSubSecTime
+//@   props C01 C02
+//@   requires tagPre(ir, t)
+//@   modifies ir.po, stream(ir.reader), ir.buffer.buf
+
+//@ func (*ifdReader).parseAperture
+//@   props C01 C02
+//@   requires tagPre(ir, t)
+//@   modifies ir.po, stream(ir.reader), ir.buffer.buf
+
+//@ func (*ifdReader).parseExposureBias
+//@   props C01 C02
+//@   requires tagPre(ir, t)
+//@   modifies ir.po, stream(ir.reader), ir.buffer.buf
+
+//@ func (*ifdReader).parseExposureTime
+//@   props C01 C02
+//@   requires tagPre(ir, t)
+//@   modifies ir.po, stream(ir.reader), ir.buffer.buf
+
+//@ func (*ifdReader).parseFocalLength
+//@   props C01 C02
+//@   requires tagPre(ir, t)
+//@   modifies ir.po, stream(ir.reader), ir.buffer.buf
+
+//@ func (*ifdReader).parseGPSDateStamp
+//@   props C01 C02
+//@   requires tagPre(ir, t)
+//@   modifies ir.po, stream(ir.reader), ir.buffer.buf
+
+//@ func (*ifdReader).parseGPSTimeStamp
+//@   props C01 C02
+//@   requires tagPre(ir, t)
+//@   modifies ir.po, stream(ir.reader), ir.buffer.buf
+
+//@ func (*ifdReader).parseLensInfo
+//@   props C01 C02
+//@   requires tagPre(ir, t)
+//@   modifies ir.po, stream(ir.reader), ir.buffer.buf
+
+//@ func (*ifdReader).ParseCameraModel
+//@   props C01 C02
+//@   requires tagPre(ir, t)
+//@   modifies ir.po, stream(ir.reader), ir.buffer.buf, ir.Exif
+
+//@ func trimNULBuffer
+//@   props C01 C02 C03
+//@   pure
+//@   ensures len(r0) <= len(buf)
+
+//@ func parseStrUint
+//@   props C01 C02
+//@   pure
+
+//@ func getLocation
+//@   props C01 C04 C05
+//@   modifies nothing
+
+//@ func (*ifdReader).parseTag
+//@   props C01 C02 C03
+//@   requires tagPre(ir, t)
+//@   modifies ir.po, stream(ir.reader), ir.buffer.buf, ir.Exif
+
+//@ func (*ifdReader).readNextIfdTag
+//@   props C01 C02
+//@   requires irOK(ir)
+//@   modifies ir.po, stream(ir.reader), ir.buffer.buf, ir.buffer.len, ir.buffer.tag
+//@   ensures ir.buffer.len <= 84 && ir.buffer.len >= old(ir.buffer.len)
+
+//@ func (*ifdReader).readIfdHeader
+//@   props C01 C02
+//@   requires irOK(ir) && ir.buffer.pos == 0
+//@   modifies ir.po, stream(ir.reader), ir.buffer.buf, ir.buffer.len, ir.buffer.tag, ir.Exif
+//@   ensures ir.buffer.len <= 84 && ir.buffer.len >= old(ir.buffer.len)
+
+//@ func (*ifdReader).readSubIfds
+//@   props C01 C02
+//@   requires tagPre(ir, t)
+//@   modifies ir.po, stream(ir.reader), ir.buffer.buf, ir.buffer.len, ir.buffer.tag
+//@   ensures ir.buffer.len <= 84 && ir.buffer.len >= old(ir.buffer.len)
+
+//@ func (*ifdReader).readMakerNotes
+//@   props C01 C02
+//@   requires irOK(ir) && ir.buffer.pos == 0
+//@   modifies ir.po, stream(ir.reader), ir.buffer.buf, ir.buffer.len, ir.buffer.tag, ir.Exif
+//@   ensures ir.buffer.len <= 84 && ir.buffer.len >= old(ir.buffer.len)
+
+//@ func (*ifdReader).readIfd
+//@   props C01 C02
+//@   requires irOK(ir) && ir.buffer.pos == 0
+//@   modifies ir.po, stream(ir.reader), ir.buffer.buf, ir.buffer.len, ir.buffer.pos, ir.buffer.tag, ir.Exif
+//@   ensures irOK(ir)
+
+//@ func (*ifdReader).ResetReader
+//@   props C01
+//@   requires ir.buffer != nil && r != nil
+//@   modifies ir.reader, ir.buffer.len, ir.buffer.pos
+//@   ensures irOK(ir) && ir.buffer.pos == 0 && ir.buffer.len == 0
+
+//@ func NewIfdReader
+//@   props C01 C04
+//@   entry
+//@   ensures r0.buffer != nil && r0.buffer.len == 0 && r0.buffer.pos == 0
+
+//@ func (*ifdReader).DecodeTiff
+//@   props C01 C02 C06
+//@   entry
+//@   requires ir.buffer != nil && r != nil
+
+//@ func (*ifdReader).DecodeJPEGIfd
+//@   props C01 C02 C06
+//@   entry
+//@   requires ir.buffer != nil && r != nil
+
+//@ func (*ifdReader).DecodeIfd
+//@   props C01 C02 C06
+//@   entry
+//@   requires ir.buffer != nil && r != nil
+
+//@ func Parse
+//@   props C01 C02
+//@   entry
+//@   requires r != nil
